@@ -139,7 +139,7 @@ func offendingLine(text, diag string) string {
 	return ""
 }
 
-var reDefType = regexp.MustCompile(`'(%[^']+)' defined with type '([^']+)' but expected '([^']+)'`)
+var reDefType = regexp.MustCompile(`'([%@][^']+)' defined with type '([^']+)' but expected '([^']+)'`)
 var reDigits = regexp.MustCompile(`\b\d+ x |\(\d+\)`)
 
 // wrongResultType recognises LLVM's "defined with type A but expected B" and names the opcode of the
@@ -160,7 +160,11 @@ func wrongResultType(text, diag string) (def, llvmTy, libTy string, ok bool) {
 					return "N x "
 				})
 			}
-			return opcodeOf(l), abs(m[2]), abs(m[3]), true
+			from, to := abs(m[2]), abs(m[3])
+			if strings.ReplaceAll(from, " addrspace(N)", "") == to { // only the address space differs: one signature for all pointee types
+				from, to = "T addrspace(N)*", "T*"
+			}
+			return opcodeOf(l), from, to, true
 		}
 	}
 	return "", "", "", false
